@@ -23,9 +23,11 @@ audit("core::run_calculator", "std::option::Option::unwrap(pest::iterators::Pair
       "grammar: `calculation = SOI ~ expr ~ EOI` always yields the `expr` pair on a successful parse")
 audit("core::run_single_program", "std::option::Option::unwrap([T]::get(std::vec::Vec::deref($1.commands), $2))", 0,
       "idx_cmd comes from the stage loop 0..cl.commands.len() (C02 R02-1 stage-bound / stage-call)")
-audit("core::run_single_program", "assert bounds(PtrMetadata($1), ($2 - 1))", 0,
-      "idx_cmd <= pipes.len(): pipes.len()+1 == commands.len() and idx_cmd < commands.len() (C02 R02-1); "
-      "idx_cmd > 0 is tested on the path")
+for _n in (0, 1, 2):
+    # the parent's release after fork, and the same release on the two `stage not started` paths (repo fix 2a2d3fc)
+    audit("core::run_single_program", "assert bounds(PtrMetadata($1), ($2 - 1))", _n,
+          "idx_cmd <= pipes.len(): pipes.len()+1 == commands.len() and idx_cmd < commands.len() (C02 R02-1); "
+          "idx_cmd > 0 is tested on the path")
 for fn in ("execute::drain_env_tokens", "types::drain_env_tokens"):
     audit(fn, "std::vec::Vec::drain($1, std::ops::Range::Range(0, $2))", 0,
           "n counts iterations of the loop over tokens.iter(), so n <= tokens.len()")
